@@ -127,6 +127,12 @@ def snippets(r):
     # templates applied to attribute, text, comment and PI nodes: the per-node-type pattern tables of the stylesheet are consulted
     S["applyattrs"] = ('', '<aa><xsl:apply-templates select="//item[1]/@*"/><xsl:apply-templates select="//item[1]/node()"/>'
                            '<xsl:apply-templates select="//comment()[1]|//processing-instruction()[1]"/></aa>')
+    # per-transformer extension function (installed only in +cfg runs; elsewhere the call is a reported error), a process-wide
+    # one (installed before any thread starts), and the per-transformer top-level parameter
+    S["extfn"] = ('<xsl:param name="par" select="\'unset\'"/>' if False else '',
+                  '<ext xmlns:e="urn:c07ext" xmlns:g="urn:c07glob"><xsl:value-of select="g:name()"/>|<xsl:value-of select="function-available(\'e:tag\')"/>|'
+                  '<xsl:for-each select="//item"><xsl:value-of select="e:tag()"/>,</xsl:for-each></ext>')
+    S["extglob"] = ('', '<eg xmlns:g="urn:c07glob"><xsl:for-each select="//item"><xsl:value-of select="g:name()"/></xsl:for-each></eg>')
     S["error"] = ('', '<err><xsl:if test="count(//item) &gt; 0"><xsl:message terminate="yes">stop here</xsl:message></xsl:if></err>')
     return S
 
@@ -151,7 +157,7 @@ def stylesheet(r, names):
 
 
 FACILITIES = ["keys", "keydoc", "number", "numberfrom", "document", "format", "formatnodecl", "sort", "id", "vars", "import",
-              "attrsets", "message", "misc", "exslt", "copyof", "missingdoc", "applyimports", "outputcdata", "nomode", "applyattrs"]
+              "attrsets", "message", "misc", "exslt", "copyof", "missingdoc", "applyimports", "outputcdata", "nomode", "applyattrs", "extfn", "extglob"]
 
 
 # these end the transformation with a reported error (the error path and its message are compared too)
